@@ -19,10 +19,8 @@ from reactivex.internal.exceptions import SequenceContainsNoElementsError
 from reactivex.run import run as run_blocking
 from reactivex.scheduler import NewThreadScheduler
 
-from .. import registry as R
 from ..common import UnitResult, case_rng, chunks, show, strict
 from ..single import SUB_AT, cut_after_terminal, make_input, match_expected, run_single, show_timed
-from ..vlab import show_timeline
 from . import _c06_seqeq as SQ
 from . import _c08_meta as M
 from . import c05, c06
